@@ -75,6 +75,7 @@ def _case(draw, kind):
                 stiff=(draw(st.sampled_from([1.0, 1.0, 1.0, 10.0, 40.0])) if not linear else draw(st.sampled_from([1.0, 10.0, 40.0, 100.0, 400.0]))) if kind == "implicit" else 1.0,
                 linear=linear,
                 layout=draw(st.sampled_from(["C", "C", "F"])),
+                persistent_out=draw(st.sampled_from([False, False, False, True])),
                 mid_fault=draw(st.sampled_from([None, None, None, 1, 2, 4, 7, 12])),
                 prelude_fault=draw(st.sampled_from([None, None, None, 2, 5, 9, 14, 20, 33])),
                 jump_mode=draw(st.sampled_from(["full", "full", "state_one_component", "state_one_component", "state_all_components", "time_only"])),
@@ -108,10 +109,16 @@ def check(case):
     rp = case["rhs"]
     if case.get("stiff", 1.0) != 1.0:
         rp = dict(rp, P=[[x * case["stiff"] for x in row] for row in rp["P"]])     # stiffer stage systems: Newton works harder / fails
+    if case.get("persistent_out"):
+        nn = int(np.prod(rp["shape"]))
+        zero = [[0.0] * nn for _ in range(nn)]
+        rp = dict(rp, P=zero, Q=zero, a=0.0, c=1.0, w2=0.0, u=[(0.5 + 0.25 * i) * (-1) ** i for i in range(nn)])      # y' = u
     f0 = PR.Prog(rp)
     kbox = [1.0]
     evals = [0]
     fault_at = [None]
+    buf = {}
+    tampered = []
 
     class Boom(Exception):
         pass
@@ -127,7 +134,22 @@ def check(case):
             if fault_at[0] is not None and evals[0] == fault_at[0]:
                 fault_at[0] = None
                 raise Boom("injected at evaluation {}".format(evals[0]))
-            return f0(t, y) * np.asarray(y).dtype.type(kw.get("k", kbox[0]))
+            out = f0(t, y) * np.asarray(y).dtype.type(kw.get("k", kbox[0]))
+            if not case.get("persistent_out"):
+                return out
+            # the user's function hands out ONE buffer it owns (preallocated output): what it returned last time must still
+            # be in there, untouched, when it is called again
+            # (only for a constant right-hand side, y' = c: `lambda t, y: c` hands out the same array object every time and
+            #  never rewrites it - whoever scales it in place corrupts the user's constant)
+            key = (out.shape, out.dtype.str, float(kw.get("k", kbox[0])))
+            if key in buf:
+                if not np.array_equal(buf[key][0], buf[key][1], equal_nan=True):
+                    tampered.append("evaluation {}: the constant array the right-hand side returns was changed from {} to {}".format(
+                        evals[0], buf[key][1].reshape(-1)[:3].tolist(), buf[key][0].reshape(-1)[:3].tolist()))
+                    buf[key][0][...] = buf[key][1]
+            else:
+                buf[key] = [out.copy(), out.copy()]
+            return buf[key][0]
 
         def jac(self, t, y, **kw):
             return f0.jac(t, y) * np.asarray(y).dtype.type(kw.get("k", kbox[0]))
@@ -355,6 +377,8 @@ def check(case):
                     raise
                 labels.append("mid_call_failed:" + type(e).__name__)
             fault_at[0] = None
+    if tampered and not viols:
+        viols.append(V("rhs_output_modified", "{} ({}): the library wrote into the array its right-hand side returned: {}".format(name, dtname, tampered[0]), sig, **attrs))
     nontrivial = n >= 2 and f.nonlinear and f.time_dependent and returned_steps >= 1
     if returned_steps >= 2:
         labels.append("consecutive_steps")
